@@ -457,7 +457,7 @@ def run(ck):
         ck.props('Props/C08.v')
 
     fams = ['while', 'for', 'for', 'iter', 'iter', 'fuse']
-    nprog = int(os.environ.get('C08_NPROG', 900 if thorough else 110))
+    nprog = int(os.environ.get('C08_NPROG', 900 if thorough else 80))
     cases, info = [], []
     rejected = 0
     t0 = time.time()
